@@ -26,7 +26,7 @@ func vNondetOrderMap(nElems, nAttrs int) Map {
 		k := "-" + vNondetString(1, 1, "def")
 		_, dup := inner[k]
 		vAssume(!dup)
-		inner[k] = vNondetString(1, 1, "12")
+		inner[k] = vNondetString(0, 1, "12") // empty attribute values beside non-empty ones
 	}
 	return Map{"r": inner}
 }
